@@ -206,6 +206,126 @@ Section IdLeaves.
   Qed.
 End IdLeaves.
 
+(* ---------- building blocks for abstract positions: a struct whose last member is the flattened
+   `on` enum, and the internally tagged enum itself *)
+Lemma filter_key_single (m : list (string * json)) k v :
+  NoDup (map fst m) -> obj_get k m = Some v -> filter (fun e => String.eqb (fst e) k) m = [(k, v)].
+Proof.
+  induction m as [|[k' v'] r IH]; intros Hnd Hg; [discriminate|].
+  inversion Hnd as [|? ? Hk Hnd']; subst. cbn [obj_get] in Hg. cbn [filter fst].
+  destruct (String.eqb_spec k k') as [->|Hne].
+  - inversion Hg; subst. rewrite String.eqb_refl. f_equal.
+    clear -Hk. induction r as [|[k2 v2] r IH]; [reflexivity|]. cbn [filter fst].
+    destruct (String.eqb_spec k2 k') as [->|]; [exfalso; apply Hk; left; reflexivity|].
+    apply IH. intros X. apply Hk. right. exact X.
+  - destruct (String.eqb_spec k' k) as [E|_]; [congruence|]. exact (IH Hnd' Hg).
+Qed.
+
+Lemma obj_get_filter (p : string * json -> bool) (m : list (string * json)) k :
+  (forall v, p (k, v) = true) -> obj_get k (filter p m) = obj_get k m.
+Proof.
+  intros Hp. induction m as [|[k' v'] r IH]; [reflexivity|]. cbn [filter obj_get].
+  destruct (String.eqb_spec k k') as [->|Hne].
+  - rewrite Hp. cbn [obj_get]. rewrite String.eqb_refl. reflexivity.
+  - destruct (p (k', v')); [cbn [obj_get]; destruct (String.eqb_spec k k'); [congruence|exact IH]|exact IH].
+Qed.
+
+Lemma nodup_keys_filter (p : string * json -> bool) (m : list (string * json)) :
+  NoDup (map fst m) -> NoDup (map fst (filter p m)).
+Proof.
+  induction m as [|e r IH]; intros H; [constructor|]. inversion H as [|? ? Hk Hnd]; subst. cbn [filter].
+  destruct (p e); [|exact (IH Hnd)]. cbn [map]. constructor; [|exact (IH Hnd)].
+  intros X. apply Hk. apply in_map_iff in X. destruct X as [x [E Hx]]. apply filter_In in Hx.
+  apply in_map_iff. exists x. split; [exact E|exact (proj1 Hx)].
+Qed.
+
+Section OnStruct.
+  Variables (D Dh : rtype -> json -> option rvalue) (env : list ritem).
+  Variables (plain : list rfield) (on : rfield) (en : string).
+  Hypothesis Hplain : forallb (fun fd => negb (f_flatten fd)) plain = true.
+  Hypothesis Hw : NoDup (map field_wire plain).
+  Hypothesis Hi : NoDup (map f_ident plain).
+  Hypothesis Hon : f_flatten on = true.
+  Hypothesis Hty : strip_box (f_ty on) = RNamed en.
+  Hypothesis Hen : exists a b c t vs, find_item en env = Some (ITagEnum a b c t vs).
+
+  Lemma filter_plain_on : filter (fun fd => negb (f_flatten fd)) (plain ++ [on]) = plain.
+  Proof.
+    rewrite filter_app. cbn [filter]. rewrite Hon. cbn [negb]. rewrite app_nil_r.
+    clear -Hplain. induction plain as [|fd r IH]; [reflexivity|]. cbn [forallb filter] in *.
+    apply andb_true_iff in Hplain. destruct Hplain as [H1 H2]. rewrite H1. f_equal. exact (IH H2).
+  Qed.
+
+  Lemma serve_plain_prefix seen buf : forall l, forallb (fun fd => negb (f_flatten fd)) l = true ->
+    (forall fd, In fd l -> field_value seen fd <> None) ->
+    forall tail, is_some (serve D env seen tail buf) = true -> is_some (serve D env seen (l ++ tail) buf) = true.
+  Proof.
+    induction l as [|fd r IH]; intros Hp Hv tail Ht; [exact Ht|].
+    cbn [forallb] in Hp. apply andb_true_iff in Hp. destruct Hp as [H1 H2]. apply negb_true_iff in H1.
+    cbn [app serve]. rewrite H1.
+    destruct (field_value seen fd) as [v|] eqn:Ev; [|exfalso; exact (Hv fd (or_introl eq_refl) Ev)].
+    specialize (IH H2 (fun g Hg => Hv g (or_intror Hg)) tail Ht).
+    destruct (serve D env seen (r ++ tail) buf); [reflexivity|discriminate IH].
+  Qed.
+
+  Theorem struct_on_accepts m :
+    NoDup (map fst m) ->
+    (forall fd, In fd plain -> member_ok D Dh m fd <> None) ->
+    is_some (D (RNamed en) (JObj (filter (not_own plain) m))) = true ->
+    is_some (deser_struct D Dh env (plain ++ [on]) m) = true.
+  Proof.
+    intros Hnd Hok Hd. unfold deser_struct. rewrite filter_plain_on.
+    destruct (claim_ok (deser_field D Dh) plain Hw Hi m Hnd) as [seen [Hc Hs]].
+    - intros k v f Hin Ef. destruct (find_field_some _ _ _ Ef) as [Hfin Hfw].
+      specialize (Hok f Hfin). unfold member_ok in Hok.
+      assert (Hg : obj_get (field_wire f) m = Some v).
+      { rewrite Hfw. clear -Hnd Hin. induction m as [|[k' v'] r IH]; [destruct Hin|].
+        cbn [obj_get]. inversion Hnd as [|? ? Hk Hnd']; subst.
+        destruct Hin as [E|Hin].
+        - inversion E; subst. rewrite String.eqb_refl. reflexivity.
+        - destruct (String.eqb_spec k k') as [->|Hne]; [|exact (IH Hnd' Hin)].
+          exfalso. apply Hk. change k' with (fst (k', v)). apply in_map. exact Hin. }
+      rewrite Hg in Hok. destruct (deser_field D Dh f v) as [x|]; [exists x; reflexivity|congruence].
+    - rewrite Hc. rewrite is_some_option_map.
+      apply serve_plain_prefix; [exact Hplain| |].
+      + intros fd Hfd. specialize (Hok fd Hfd). unfold member_ok in Hok. unfold field_value.
+        rewrite (Hs fd Hfd). destruct (obj_get (field_wire fd) m) as [v|].
+        * destruct (deser_field D Dh fd v); [discriminate|congruence].
+        * unfold field_value in Hok. cbn [assoc] in Hok. exact Hok.
+      + cbn [serve]. rewrite Hon, Hty. destruct Hen as [a [b [c [t [vs E]]]]]. rewrite E.
+        destruct (D (RNamed en) (JObj (filter (not_own plain) m))); [reflexivity|discriminate Hd].
+  Qed.
+End OnStruct.
+
+Lemma tagged_accepts (D : rtype -> json -> option rvalue) tag variants (m : list (string * json)) rt var :
+  NoDup (map fst m) -> obj_get tag m = Some (JStr rt) ->
+  find (fun v => String.eqb (variant_wire v) rt) variants = Some var ->
+  match v_payload var with
+  | None => True
+  | Some pt => is_some (D pt (JObj (filter (fun e => negb (String.eqb (fst e) tag)) m))) = true
+  end ->
+  is_some (deser_tagged D tag variants m) = true.
+Proof.
+  intros Hnd Hg Hf Hp. unfold deser_tagged. rewrite (filter_key_single m tag (JStr rt) Hnd Hg). rewrite Hf.
+  destruct (v_payload var) as [pt|]; [|reflexivity]. rewrite is_some_option_map. exact Hp.
+Qed.
+
+(* equality of field definitions, for "the object declares the interface's field as the interface does" *)
+Definition gtype_eqb_gen := fix go (a b : gtype) : bool :=
+  match a, b with
+  | GNamed x, GNamed y => String.eqb x y
+  | GList x, GList y | GNonNull x, GNonNull y => go x y
+  | _, _ => false
+  end.
+Definition fd_eqb_gen (a b : fielddef) : bool := String.eqb (fd_name a) (fd_name b) && gtype_eqb_gen (fd_type a) (fd_type b).
+Lemma gtype_eqb_gen_eq a b : gtype_eqb_gen a b = true -> a = b.
+Proof.
+  revert b. induction a as [x|x IH|x IH]; intros [y|y|y]; cbn; try discriminate.
+  - intros H. apply String.eqb_eq in H. congruence.
+  - intros H. f_equal. exact (IH y H).
+  - intros H. f_equal. exact (IH y H).
+Qed.
+
 (* ---------- the certifying checker *)
 Definition prim_names : list string := ["String"; "i64"; "i32"; "f64"; "bool"; "serde_json::Value"; "()"].
 Definition is_prim (n : string) : bool := mem_str n prim_names.
@@ -245,6 +365,29 @@ Proof.
   destruct (IH t (f_equal pred Hl) Hin) as [b Hb]. exists b. right. exact Hb.
 Qed.
 
+Lemma NoDup_app_iff {A} (a b : list A) : NoDup (a ++ b) <-> NoDup a /\ NoDup b /\ (forall x, In x a -> ~ In x b).
+Proof.
+  induction a as [|x r IH]; cbn [app].
+  - split; [intros H; repeat split; [constructor|exact H|intros x []]|intros [_ [H _]]; exact H].
+  - split.
+    + intros H. inversion H as [|? ? Hx Hr]; subst. apply IH in Hr. destruct Hr as [Ha [Hb Hd]].
+      repeat split; [constructor; [intros X; apply Hx; apply in_or_app; left; exact X|exact Ha]|exact Hb|].
+      intros y [->|Hy]; [intros X; apply Hx; apply in_or_app; right; exact X|exact (Hd y Hy)].
+    + intros [Ha [Hb Hd]]. inversion Ha as [|? ? Hx Hr]; subst. constructor.
+      * intros X. apply in_app_or in X. destruct X as [X|X]; [exact (Hx X)|exact (Hd x (or_introl eq_refl) X)].
+      * apply IH. repeat split; [exact Hr|exact Hb|intros y Hy; exact (Hd y (or_intror Hy))].
+Qed.
+
+Lemma json_eqb_str v x : json_eqb v (JStr x) = true -> v = JStr x.
+Proof. destruct v; cbn; try discriminate. intros H. apply String.eqb_eq in H. congruence. Qed.
+
+Lemma find_field_absent k fs : (forall g, In g fs -> field_wire g <> k) -> find_field k fs = None.
+Proof.
+  induction fs as [|f r IH]; intros H; [reflexivity|]. cbn [find_field].
+  destruct (String.eqb_spec (field_wire f) k) as [E|_]; [exfalso; exact (H f (or_introl eq_refl) E)|].
+  apply IH. intros g Hg. apply H. right. exact Hg.
+Qed.
+
 Section Checker.
   Variables (s : aschema) (frags : list (string * (string * list sel))) (henv env : list ritem).
 
@@ -265,7 +408,7 @@ Section Checker.
     | Some KEnum =>
         if negb (is_prim ln) && match find_item ln env with Some (IStrEnum _ _ _ _ _ _ true) => true | _ => false end
         then Some 1 else None
-    | Some KObject => match sub with [] => None | _ => rec ln tn sub end
+    | Some KObject | Some KInterface | Some KUnion => match sub with [] => None | _ => rec ln tn sub end
     | _ => None
     end.
 
@@ -302,25 +445,111 @@ Section Checker.
 
   Definition not_typename (x : sel) : bool := negb (String.eqb (fst (snd (sel_entry x))) "__typename").
 
-  (* Some B: the struct `name` implements the selection `sels` on object type t, and its
-     deserializer needs fuel B *)
-  Fixpoint plain_need (fuel : nat) (name t : string) (sels : list sel) {struct fuel} : option nat :=
+  (* the plain members of a struct against the (non-__typename) fields of a selection on type t *)
+  Definition members_need (rec : string -> string -> list sel -> option nat) (t : string)
+             (fields : list rfield) (own : list sel) : option (list nat) :=
+    if forallb (fun fd => negb (f_flatten fd)) fields &&
+       nodup_str (map field_wire fields) && nodup_str (map f_ident fields) &&
+       Nat.eqb (List.length fields) (List.length own)
+    then map_opt (fun p => pair_need rec t (fst p) (snd p)) (combine fields own)
+    else None.
+
+  (* object type: a struct without flattened members *)
+  Definition obj_need (rec : string -> string -> list sel -> option nat) (name t : string) (sels : list sel) : option nat :=
+    if negb (forallb is_field sels && nodup_str (map (fun x => fst (sel_entry x)) sels) && negb (is_prim name))
+    then None else
+    match find_item name env with
+    | Some (IStruct _ _ _ fields) =>
+        match members_need rec t fields (filter not_typename sels) with
+        | Some needs => Some (S (list_max needs))
+        | None => None
+        end
+    | _ => None
+    end.
+
+  (* ---- interface / union: `__typename`, own fields, one inline fragment per member type *)
+  Definition shape_ok (x : sel) : bool :=
+    match x with
+    | SField a n _ => negb (String.eqb n "__typename") || match a with None => true | Some _ => false end
+    | SInline (Some v) sub =>
+        forallb is_field sub && forallb not_typename sub &&
+        match find_kind_sdl s v with Some KObject => true | _ => false end
+    | _ => false
+    end.
+
+  Definition mixed_entries (rt : string) (sels : list sel) : list (string * (string * list sel)) :=
+    flat_map (fun x => match x with
+                       | SField _ _ _ => [sel_entry x]
+                       | SInline (Some v) sub => if applies s rt v then map sel_entry sub else []
+                       | _ => [] end) sels.
+
+  Definition inlines (sels : list sel) : list (string * list sel) :=
+    flat_map (fun x => match x with SInline (Some v) sub => [(v, sub)] | _ => [] end) sels.
+
+  Definition has_typename_field (sels : list sel) : bool :=
+    existsb (fun x => match x with SField None n _ => String.eqb n "__typename" | _ => false end) sels.
+
+  Definition variants_need (rec : string -> string -> list sel -> option nat) (t : string) (sels : list sel)
+             (variants : list rvariant) : option (list nat) :=
+    map_opt (fun rt =>
+      match find (fun v => String.eqb (variant_wire v) rt) variants with
+      | Some var =>
+          match v_payload var, assoc rt (inlines sels) with
+          | None, None => Some 0
+          | Some (RNamed sv), Some sub => rec sv rt sub
+          | _, _ => None
+          end
+      | None => None
+      end) (possible s t).
+
+  Definition abs_need (rec : string -> string -> list sel -> option nat) (name t : string) (sels : list sel) : option nat :=
+    let own := filter (fun x => is_field x && not_typename x) sels in
+    if negb (forallb shape_ok sels && has_typename_field sels && nodup_str (map fst (inlines sels)) &&
+             negb (is_prim name) &&
+             forallb (fun rt => nodup_str (map fst (mixed_entries rt sels)) &&
+                                match find_kind_sdl s rt with Some KObject => true | _ => false end &&
+                                forallb (fun x => match x with
+                                                  | SField _ n _ => opt_eqb gtype_eqb_gen (option_map fd_type (field_def s rt n))
+                                                                            (option_map fd_type (field_def s t n))
+                                                  | _ => true end) own) (possible s t))
+    then None else
+    match own, find_item name env with
+    | [], Some (ITagEnum _ _ _ tag variants) =>
+        if negb (String.eqb tag "__typename") then None else
+        match variants_need rec t sels variants with
+        | Some vn => Some (S (list_max vn))
+        | None => None
+        end
+    | _ :: _, Some (IStruct _ _ _ fields) =>
+        match rev fields with
+        | onf :: rplain =>
+            match strip_box (f_ty onf) with
+            | RNamed en =>
+                match find_item en env with
+                | Some (ITagEnum _ _ _ tag variants) =>
+                    if negb (String.eqb tag "__typename" && f_flatten onf && negb (is_prim en)) then None else
+                    match members_need rec t (rev rplain) own, variants_need rec t sels variants with
+                    | Some needs, Some vn => Some (S (S (list_max (needs ++ vn))))
+                    | _, _ => None
+                    end
+                | _ => None
+                end
+            | _ => None
+            end
+        | [] => None
+        end
+    | _, _ => None
+    end.
+
+  (* Some B: the type `name` implements the selection `sels` on type t, and its deserializer needs fuel B *)
+  Fixpoint sel_need (fuel : nat) (name t : string) (sels : list sel) {struct fuel} : option nat :=
     match fuel with
     | O => None
     | S f =>
-        if negb (forallb is_field sels && nodup_str (map (fun x => fst (sel_entry x)) sels) && negb (is_prim name))
-        then None else
-        match find_kind_sdl s t, find_item name env with
-        | Some KObject, Some (IStruct _ _ _ fields) =>
-            if negb (forallb (fun fd => negb (f_flatten fd)) fields &&
-                     nodup_str (map field_wire fields) && nodup_str (map f_ident fields) &&
-                     Nat.eqb (List.length fields) (List.length (filter not_typename sels)))
-            then None else
-            match map_opt (fun p => pair_need (plain_need f) t (fst p) (snd p)) (combine fields (filter not_typename sels)) with
-            | Some needs => Some (S (list_max needs))
-            | None => None
-            end
-        | _, _ => None
+        match find_kind_sdl s t with
+        | Some KObject => obj_need (sel_need f) name t sels
+        | Some KInterface | Some KUnion => abs_need (sel_need f) name t sels
+        | _ => None
         end
     end.
 End Checker.
@@ -331,7 +560,7 @@ Section Soundness.
 
   Definition Accepts (rec : string -> string -> list sel -> option nat) : Prop :=
     forall name t sels B, rec name t sels = Some B ->
-    forall F, B <= F -> forall Fj m, cobj s frags Fj t sels m = true ->
+    forall F, B <= F -> forall Fj m rt, In rt (possible s t) -> cobj s frags Fj rt sels m = true ->
     is_some (deser henv F env (RNamed name) (JObj m)) = true.
 
   Lemma alias_to_find n p : alias_to env n p = true -> exists n', find_item n env = Some (IAlias n' (RNamed p)).
@@ -344,7 +573,7 @@ Section Soundness.
     deser henv (S F) env (RNamed n) j = deser henv F env u j.
   Proof. intros Hp Hf. cbn [deser]. rewrite (prim_deser_none n j Hp), Hf. reflexivity. Qed.
 
-  (* the leaf layer, given that the structs below are accepted *)
+  (* the leaf layer, given that the composite types below are accepted *)
   Lemma leaf_accepts rec : Accepts rec ->
     forall tn ln sub F0, leaf_need s env rec tn ln sub = Some F0 ->
     forall fj F j, F0 <= F -> is_null j = false ->
@@ -352,7 +581,16 @@ Section Soundness.
   Proof.
     intros Hrec tn ln sub F0 Hn fj F j HF Hnn Hl.
     unfold leaf_need in Hn. unfold leaf_of in Hl.
-    destruct (find_kind_sdl s tn) as [[| | | | |]|] eqn:Ek; try discriminate.
+    assert (Hcomp : forall B, match sub with [] => None | _ => rec ln tn sub end = Some B -> B <= F ->
+              (match j, sub with
+               | JObj m', _ :: _ => existsb (fun rt' => cobj s frags fj rt' sub m') (possible s tn)
+               | _, _ => false end) = true -> is_some (deser henv F env (RNamed ln) j) = true).
+    { intros B HB HBF Hex. destruct sub as [|x0 sub0]; [discriminate|].
+      destruct j as [| | | | | |m']; try discriminate.
+      apply existsb_exists in Hex. destruct Hex as [rt' [Hin Hc]].
+      exact (Hrec ln tn (x0 :: sub0) B HB F HBF fj m' rt' Hin Hc). }
+    destruct (find_kind_sdl s tn) as [[| | | | |]|] eqn:Ek; try discriminate;
+      try (exact (Hcomp F0 Hn HF Hl)).
     - (* scalar *)
       destruct (String.eqb_spec tn "Int") as [->|N1].
       { destruct (String.eqb_spec ln "Int") as [->|]; [|discriminate]. cbn [andb] in Hn.
@@ -388,56 +626,27 @@ Section Soundness.
       inversion Hn; subst F0. destruct F as [|F]; [lia|].
       cbn [deser]. rewrite (prim_deser_none ln j Ep), Ef.
       destruct j; try discriminate. unfold strenum_deser. destruct (assoc s0 da); reflexivity.
-    - (* object *)
-      destruct sub as [|x0 sub0]; [discriminate|].
-      destruct j as [| | | | | |m']; try discriminate.
-      assert (Hp : possible s tn = [tn]) by (unfold possible; rewrite Ek; reflexivity).
-      rewrite Hp in Hl. cbn [existsb] in Hl. rewrite orb_false_r in Hl.
-      exact (Hrec ln tn (x0 :: sub0) F0 Hn F HF fj m' Hl).
   Qed.
 
-  Theorem plain_accepts : forall fuel, Accepts (plain_need s henv env fuel).
+  (* one plain member against the payload: the per-field step shared by structs on object and on
+     abstract types.  rt is the runtime type, t the static type the selection is written on. *)
+  Lemma member_accepts rec : Accepts rec ->
+    forall t rt fd a n sub nd fj F m,
+    pair_need s henv env rec t fd (SField a n sub) = Some nd -> nd <= F ->
+    String.eqb n "__typename" = false ->
+    option_map fd_type (field_def s rt n) = option_map fd_type (field_def s t n) ->
+    field_ok s (cobj s frags fj) rt m (sel_entry (SField a n sub)) = true ->
+    member_ok (deser henv F env) (deser henv F henv) m fd <> None.
   Proof.
-    induction fuel as [|f IH]; intros name t sels B H F HF Fj m Hc; [discriminate|].
-    cbn [plain_need] in H.
-    destruct (forallb is_field sels && nodup_str (map (fun x => fst (sel_entry x)) sels) && negb (is_prim name)) eqn:E1;
-      [|discriminate]. cbn [negb] in H.
-    apply andb_true_iff in E1. destruct E1 as [E1 Hprim]. apply andb_true_iff in E1. destruct E1 as [Hfld Hnd].
-    apply negb_true_iff in Hprim. apply nodup_str_NoDup in Hnd.
-    destruct (find_kind_sdl s t) as [[| | | | |]|] eqn:Ek; try discriminate.
-    destruct (find_item name env) as [[nm d c fields| | | | | | | |]|] eqn:Ef; try discriminate.
-    destruct (forallb (fun fd => negb (f_flatten fd)) fields && nodup_str (map field_wire fields) &&
-              nodup_str (map f_ident fields) &&
-              Nat.eqb (List.length fields) (List.length (filter not_typename sels))) eqn:E2; [|discriminate].
-    cbn [negb] in H.
-    apply andb_true_iff in E2. destruct E2 as [E2 Hlen]. apply andb_true_iff in E2. destruct E2 as [E2 Hi].
-    apply andb_true_iff in E2. destruct E2 as [Hplain Hw].
-    apply nodup_str_NoDup in Hw. apply nodup_str_NoDup in Hi. apply Nat.eqb_eq in Hlen.
-    destruct (map_opt _ (combine fields (filter not_typename sels))) as [needs|] eqn:Em; [|discriminate].
-    inversion H; subst B. clear H.
-    destruct F as [|F]; [lia|].
-    destruct Fj as [|fj]; [discriminate|]. cbn [cobj] in Hc.
-    rewrite (collected_plain s frags t sels Hfld Hnd) in Hc.
-    apply andb_true_iff in Hc. destruct Hc as [Hc Hall]. apply andb_true_iff in Hc. destruct Hc as [Hmnd _].
-    apply nodup_str_NoDup in Hmnd.
-    cbn [deser]. rewrite (prim_deser_none name (JObj m) Hprim), Ef.
-    destruct (struct_accepts (deser henv F env) (deser henv F henv) env fields Hplain Hw Hi m Hmnd) as [vs [Hd _]];
-      [|rewrite Hd; reflexivity].
-    intros fd Hfd.
-    destruct (in_combine_exists fields (filter not_typename sels) fd Hlen Hfd) as [x Hx].
-    destruct (map_opt_in _ _ _ _ Em Hx) as [nd [Hpn Hnd']]. cbn [fst snd] in Hpn.
-    assert (Hxs : In x sels /\ not_typename x = true).
-    { apply in_combine_r in Hx. apply filter_In in Hx. exact Hx. }
-    destruct Hxs as [Hxs Hnt].
-    unfold pair_need in Hpn. destruct x as [a n sub| |]; try discriminate.
+    intros Hrec t rt fd a n sub nd fj F m Hpn HF Hnt Hdef Hall.
+    unfold pair_need in Hpn.
     destruct (String.eqb_spec (field_wire fd) (response_key a n)) as [Hwk|]; [|discriminate]. cbn [negb] in Hpn.
-    (* what the payload has at this key *)
-    rewrite forallb_forall in Hall.
-    specialize (Hall (sel_entry (SField a n sub)) (in_map sel_entry _ _ Hxs)).
     cbn [sel_entry] in Hall. unfold field_ok in Hall.
     destruct (obj_get (response_key a n) m) as [v|] eqn:Eg; [|discriminate].
-    unfold not_typename in Hnt. cbn [sel_entry fst snd] in Hnt. apply negb_true_iff in Hnt. rewrite Hnt in Hall.
-    destruct (field_def s t n) as [fdf|] eqn:Efd; [|destruct (f_deser_with fd); discriminate].
+    rewrite Hnt in Hall.
+    destruct (field_def s rt n) as [fdr|] eqn:Efr; [|discriminate].
+    destruct (field_def s t n) as [fdf|] eqn:Efd; [|discriminate Hdef].
+    cbn [option_map] in Hdef. assert (Hty : fd_type fdr = fd_type fdf) by congruence. rewrite Hty in Hall. clear Hdef Hty.
     unfold member_ok. rewrite Hwk, Eg. unfold deser_field.
     destruct (f_deser_with fd) as [h|] eqn:Edw.
     { (* an ID field *)
@@ -450,7 +659,6 @@ Section Soundness.
       { intros j. unfold leaf_of. destruct (find_kind_sdl s "ID") as [[| | | | |]|]; try discriminate.
         unfold scalar_leaf. cbn. destruct j; intros; assumption || discriminate. }
       pose proof (ctype_mono _ _ Hleaf _ _ _ Hall) as Hid_ok.
-      assert (HF4 : 4 <= F) by (pose proof (in_list_max _ _ Hnd'); lia).
       destruct F as [|[|[|F]]]; try lia.
       match goal with H : henv_ok henv = true |- _ => rename H into Hh end.
       destruct (String.eqb h "deserialize_id") eqn:E1.
@@ -470,21 +678,465 @@ Section Soundness.
           pose proof (proj1 (id_container_both henv Hh (S F) _ Hwf) v Hid_ok) as Hs.
           destruct (id_container_deser _ _ v); [discriminate|discriminate Hs]. }
     destruct (wf_gtype (fd_type fdf)) eqn:Ewf; [|discriminate]. cbn [negb] in Hpn.
-    destruct (leaf_need s env (plain_need s henv env f) (gname (fd_type fdf)) (rleaf (f_ty fd)) sub) as [F0|] eqn:El; [|discriminate].
+    destruct (leaf_need s env rec (gname (fd_type fdf)) (rleaf (f_ty fd)) sub) as [F0|] eqn:El; [|discriminate].
     destruct (decorate (rleaf (f_ty fd)) (quals_sdl (fd_type fdf))) as [r|] eqn:Edec; [|discriminate].
     destruct (rtype_eqb r (f_ty fd)) eqn:Er; [|discriminate]. apply rtype_eqb_eq in Er. subst r.
     inversion Hpn; subst nd. clear Hpn.
     assert (Hs : is_some (deser henv F env (f_ty fd) v) = true).
     { apply (field_type_accepts_conforming henv env (rleaf (f_ty fd))
                (leaf_of s (cobj s frags fj) (gname (fd_type fdf)) sub) F0) with (t := fd_type fdf).
-      - intros F1 j1 HF1 Hn1 Hl1. exact (leaf_accepts _ IH _ _ _ _ El fj F1 j1 HF1 Hn1 Hl1).
+      - intros F1 j1 HF1 Hn1 Hl1. exact (leaf_accepts _ Hrec _ _ _ _ El fj F1 j1 HF1 Hn1 Hl1).
       - exact Ewf.
       - exact Edec.
-      - pose proof (in_list_max _ _ Hnd'). lia.
+      - lia.
       - exact Hall. }
     destruct (deser henv F env (f_ty fd) v); [discriminate|discriminate Hs].
   Qed.
+
+  (* all plain members at once *)
+  Lemma members_accept rec : Accepts rec ->
+    forall t rt fields own needs fj F m,
+    members_need s henv env rec t fields own = Some needs -> list_max needs <= F ->
+    (forall x, In x own -> exists a n sub, x = SField a n sub /\ String.eqb n "__typename" = false /\
+                                        option_map fd_type (field_def s rt n) = option_map fd_type (field_def s t n) /\
+                                        field_ok s (cobj s frags fj) rt m (sel_entry x) = true) ->
+    forallb (fun fd => negb (f_flatten fd)) fields = true /\ NoDup (map field_wire fields) /\ NoDup (map f_ident fields) /\
+    forall fd, In fd fields -> member_ok (deser henv F env) (deser henv F henv) m fd <> None.
+  Proof.
+    intros Hrec t rt fields own needs fj F m Hm HF Hown. unfold members_need in Hm.
+    match type of Hm with (if ?c then _ else _) = _ => destruct c eqn:Ec; [|discriminate] end.
+    apply andb_true_iff in Ec. destruct Ec as [Ec Hlen]. apply andb_true_iff in Ec. destruct Ec as [Ec Hi].
+    apply andb_true_iff in Ec. destruct Ec as [Hplain Hw].
+    apply nodup_str_NoDup in Hw. apply nodup_str_NoDup in Hi. apply Nat.eqb_eq in Hlen.
+    repeat split; try assumption.
+    intros fd Hfd.
+    destruct (in_combine_exists fields own fd Hlen Hfd) as [x Hx].
+    destruct (map_opt_in _ _ _ _ Hm Hx) as [nd [Hpn Hnd']]. cbn [fst snd] in Hpn.
+    destruct (Hown x (in_combine_r _ _ _ _ Hx)) as [a [n [sub [-> [Hnt [Hdef Hok]]]]]].
+    apply (member_accepts rec Hrec t rt fd a n sub nd fj F m Hpn); try assumption.
+    pose proof (in_list_max _ _ Hnd'). lia.
+  Qed.
+
+  Lemma obj_sound rec : Accepts rec ->
+    forall name t sels B, find_kind_sdl s t = Some KObject -> obj_need s henv env rec name t sels = Some B ->
+    forall F, B <= F -> forall Fj m rt, In rt (possible s t) -> cobj s frags Fj rt sels m = true ->
+    is_some (deser henv F env (RNamed name) (JObj m)) = true.
+  Proof.
+    intros Hrec name t sels B Ek H F HF Fj m rt Hrt Hc.
+    assert (rt = t) as ->.
+    { unfold possible in Hrt. rewrite Ek in Hrt. destruct Hrt as [<-|[]]. reflexivity. }
+    unfold obj_need in H.
+    destruct (forallb is_field sels && nodup_str (map (fun x => fst (sel_entry x)) sels) && negb (is_prim name)) eqn:E1;
+      [|discriminate]. cbn [negb] in H.
+    apply andb_true_iff in E1. destruct E1 as [E1 Hprim]. apply andb_true_iff in E1. destruct E1 as [Hfld Hnd].
+    apply negb_true_iff in Hprim. apply nodup_str_NoDup in Hnd.
+    destruct (find_item name env) as [[nm d c fields| | | | | | | |]|] eqn:Ef; try discriminate.
+    destruct (members_need s henv env rec t fields (filter not_typename sels)) as [needs|] eqn:Em; [|discriminate].
+    inversion H; subst B. clear H.
+    destruct F as [|F]; [lia|].
+    destruct Fj as [|fj]; [discriminate|]. cbn [cobj] in Hc.
+    rewrite (collected_plain s frags t sels Hfld Hnd) in Hc.
+    apply andb_true_iff in Hc. destruct Hc as [Hc Hall]. apply andb_true_iff in Hc. destruct Hc as [Hmnd _].
+    apply nodup_str_NoDup in Hmnd. rewrite forallb_forall in Hall.
+    destruct (members_accept rec Hrec t t fields (filter not_typename sels) needs fj F m Em) as [Hplain [Hw [Hi Hmem]]]; [lia| |].
+    { intros x Hx. apply filter_In in Hx. destruct Hx as [Hxs Hnt].
+      rewrite forallb_forall in Hfld. specialize (Hfld x Hxs).
+      destruct x as [a n sub| |]; try discriminate.
+      exists a, n, sub. split; [reflexivity|]. unfold not_typename in Hnt. cbn [sel_entry fst snd] in Hnt.
+      apply negb_true_iff in Hnt. split; [exact Hnt|]. split; [reflexivity|].
+      apply Hall. apply in_map. exact Hxs. }
+    cbn [deser]. rewrite (prim_deser_none name (JObj m) Hprim), Ef.
+    destruct (struct_accepts (deser henv F env) (deser henv F henv) env fields Hplain Hw Hi m Hmnd Hmem) as [vs [Hd _]].
+    rewrite Hd. reflexivity.
+  Qed.
+
+  (* ---- CollectFields on a selection of fields and inline fragments with field-only bodies *)
+  Lemma collect_mixed fuel rt visited sels : forallb (shape_ok s) sels = true ->
+    collect_fields s frags (S fuel) rt visited sels = (mixed_entries s rt sels, visited).
+  Proof.
+    intros H. cbn [collect_fields]. unfold mixed_entries.
+    induction sels as [|x r IH]; [reflexivity|].
+    cbn [forallb] in H. apply andb_true_iff in H. destruct H as [Hx Hr].
+    cbn [flat_map]. destruct x as [a n sub|[v|] sub|]; try discriminate.
+    - rewrite (IH Hr). reflexivity.
+    - cbn [shape_ok] in Hx. apply andb_true_iff in Hx. destruct Hx as [Hx _]. apply andb_true_iff in Hx. destruct Hx as [Hsub _].
+      destruct (applies s rt v).
+      + assert (Hin : forall vis,
+                 (fix many (l : list sel) (visited0 : list string) {struct l} :=
+                    match l with
+                    | [] => ([], visited0)
+                    | y :: r0 =>
+                        let '(a0, v1) :=
+                          (fix one (x : sel) (visited1 : list string) {struct x} :
+                             list (string * (string * list sel)) * list string :=
+                             match x with
+                             | SField alias n sub0 => ([(response_key alias n, (n, sub0))], visited1)
+                             | SInline on sub0 =>
+                                 if match on with Some c => applies s rt c | None => true end
+                                 then (fix many0 (l0 : list sel) (visited2 : list string) {struct l0} :=
+                                         match l0 with
+                                         | [] => ([], visited2)
+                                         | y0 :: r1 => let '(a1, v2) := one y0 visited2 in
+                                                       let '(b, v3) := many0 r1 v2 in (a1 ++ b, v3)
+                                         end) sub0 visited1
+                                 else ([], visited1)
+                             | SSpread n =>
+                                 if mem_str n visited1 then ([], visited1)
+                                 else match assoc n frags with
+                                      | Some (c, fsel) =>
+                                          if applies s rt c then collect_fields s frags fuel rt (n :: visited1) fsel
+                                          else ([], n :: visited1)
+                                      | None => ([], n :: visited1)
+                                      end
+                             end) y visited0 in
+                        let '(b, v2) := many r0 v1 in (a0 ++ b, v2)
+                    end) sub vis = (map sel_entry sub, vis)).
+        { clear -Hsub. induction sub as [|y r0 IH2]; intros vis; [reflexivity|].
+          cbn [forallb] in Hsub. apply andb_true_iff in Hsub. destruct Hsub as [Hy Hr0].
+          destruct y as [a n sub0| |]; try discriminate. rewrite (IH2 Hr0). reflexivity. }
+        rewrite Hin. rewrite (IH Hr). reflexivity.
+      + rewrite (IH Hr). reflexivity.
+  Qed.
+
+  Lemma collected_mixed rt sels : forallb (shape_ok s) sels = true -> NoDup (map fst (mixed_entries s rt sels)) ->
+    collected s frags rt sels = mixed_entries s rt sels.
+  Proof.
+    intros Hs Hnd. unfold collected. rewrite collect_mixed by exact Hs. cbn [fst].
+    apply merge_fields_nodup. exact Hnd.
+  Qed.
+
+  (* ---- facts about mixed_entries *)
+  Definition entries_of (rt : string) (x : sel) : list (string * (string * list sel)) :=
+    match x with
+    | SField _ _ _ => [sel_entry x]
+    | SInline (Some v) sub => if applies s rt v then map sel_entry sub else []
+    | _ => []
+    end.
+
+  Lemma mixed_is_flat_map rt sels : mixed_entries s rt sels = flat_map (entries_of rt) sels.
+  Proof. reflexivity. Qed.
+
+  Lemma flat_map_seg_nodup {A} (g : A -> list (string * (string * list sel))) l x :
+    NoDup (map fst (flat_map g l)) -> In x l -> NoDup (map fst (g x)).
+  Proof.
+    induction l as [|y r IH]; intros H Hin; [destruct Hin|].
+    cbn [flat_map] in H. rewrite map_app in H. destruct Hin as [->|Hin].
+    - exact (proj1 (proj1 (NoDup_app_iff _ _) H)).
+    - apply IH; [|exact Hin]. exact (proj1 (proj2 (proj1 (NoDup_app_iff _ _) H))).
+  Qed.
+
+  Lemma flat_map_keys_disjoint {A} (g : A -> list (string * (string * list sel))) l x1 x2 e1 e2 :
+    NoDup (map fst (flat_map g l)) -> In x1 l -> In x2 l -> x1 <> x2 -> In e1 (g x1) -> In e2 (g x2) -> fst e1 <> fst e2.
+  Proof.
+    induction l as [|y r IH]; intros H H1 H2 Hne He1 He2; [destruct H1|].
+    cbn [flat_map] in H. rewrite map_app in H. apply NoDup_app_iff in H. destruct H as [Ha [Hb Hdis]].
+    assert (Hin : forall x e, In x r -> In e (g x) -> In (fst e) (map fst (flat_map g r))).
+    { intros x e Hx He. apply in_map. apply in_flat_map. exists x. split; assumption. }
+    destruct H1 as [->|H1]; destruct H2 as [->|H2].
+    - congruence.
+    - intros E. apply (Hdis (fst e1)); [apply in_map; exact He1|]. rewrite E. exact (Hin x2 e2 H2 He2).
+    - intros E. apply (Hdis (fst e2)); [apply in_map; exact He2|]. rewrite <- E. exact (Hin x1 e1 H1 He1).
+    - exact (IH Hb H1 H2 Hne He1 He2).
+  Qed.
+
+  Lemma applies_object rt v : find_kind_sdl s v = Some KObject -> applies s rt v = String.eqb rt v.
+  Proof. intros H. unfold applies, possible. rewrite H. cbn [mem_str]. destruct (String.eqb rt v); reflexivity. Qed.
+
+  Lemma assoc_inlines rt sub sels : assoc rt (inlines sels) = Some sub -> In (SInline (Some rt) sub) sels.
+  Proof.
+    induction sels as [|x r IH]; [discriminate|]. unfold inlines. cbn [flat_map].
+    destruct x as [a n sb|[v|] sb|]; cbn [app]; try (intros H; right; exact (IH H)).
+    cbn [assoc]. destruct (String.eqb_spec rt v) as [->|Hne].
+    - intros H. inversion H; subst. left. reflexivity.
+    - intros H. right. exact (IH H).
+  Qed.
+
+  Lemma inlines_unique v sub sub' sels : NoDup (map fst (inlines sels)) ->
+    In (SInline (Some v) sub) sels -> In (SInline (Some v) sub') sels -> sub = sub'.
+  Proof.
+    intros Hnd H1 H2.
+    assert (Hin : forall sb, In (SInline (Some v) sb) sels -> In (v, sb) (inlines sels)).
+    { intros sb H. unfold inlines. apply in_flat_map. exists (SInline (Some v) sb). split; [exact H|left; reflexivity]. }
+    pose proof (Hin sub H1) as A. pose proof (Hin sub' H2) as B.
+    clear -Hnd A B. induction (inlines sels) as [|[k x] r IH]; [destruct A|].
+    cbn [map fst] in Hnd. inversion Hnd as [|? ? Hk Hr]; subst.
+    destruct A as [A|A]; destruct B as [B|B].
+    - congruence.
+    - inversion A; subst. exfalso. apply Hk. change v with (fst (v, sub')). apply in_map. exact B.
+    - inversion B; subst. exfalso. apply Hk. change v with (fst (v, sub)). apply in_map. exact A.
+    - exact (IH Hr A B).
+  Qed.
+
+  (* the payload handed to a variant's struct conforms to the inline fragment's selection *)
+  Lemma content_conforms rt sub (m content : list (string * json)) fj :
+    forallb is_field sub = true -> NoDup (map (fun x => fst (sel_entry x)) sub) ->
+    NoDup (map fst content) ->
+    (forall e, In e content -> In (fst e) (map (fun x => fst (sel_entry x)) sub)) ->
+    (forall y, In y sub -> obj_get (fst (sel_entry y)) content = obj_get (fst (sel_entry y)) m) ->
+    (forall y, In y sub -> field_ok s (cobj s frags fj) rt m (sel_entry y) = true) ->
+    cobj s frags (S fj) rt sub content = true.
+  Proof.
+    intros Hf Hnd Hc Hk Hg Hok. cbn [cobj]. rewrite (collected_plain s frags rt sub Hf Hnd).
+    apply andb_true_iff. split; [apply andb_true_iff; split|].
+    - apply nodup_str_NoDup. exact Hc.
+    - apply forallb_forall. intros e He. apply mem_str_In. rewrite map_map. exact (Hk e He).
+    - apply forallb_forall. intros e He. apply in_map_iff in He. destruct He as [y [<- Hy]].
+      specialize (Hok y Hy). specialize (Hg y Hy).
+      destruct (sel_entry y) as [k [n sb]]. unfold field_ok in *. cbn [fst] in Hg. rewrite Hg. exact Hok.
+  Qed.
+
+  Lemma opt_gtype_eq a b : opt_eqb gtype_eqb_gen a b = true -> a = b.
+  Proof. destruct a, b; cbn; try discriminate; [|reflexivity]. intros H. f_equal. exact (gtype_eqb_gen_eq _ _ H). Qed.
+
+  Lemma in_combine_exists_r {A B} (l : list A) (l' : list B) b :
+    List.length l = List.length l' -> In b l' -> exists a, In (a, b) (combine l l').
+  Proof.
+    revert l. induction l' as [|y t IH]; intros [|x r] Hl Hin; try discriminate; [destruct Hin|].
+    destruct Hin as [->|Hin]; [exists x; left; reflexivity|].
+    destruct (IH r (f_equal pred Hl) Hin) as [a Ha]. exists a. right. exact Ha.
+  Qed.
+
+  Lemma members_wires rec t fields own needs : members_need s henv env rec t fields own = Some needs ->
+    List.length fields = List.length own /\
+    forall fd x, In (fd, x) (combine fields own) -> exists a n sb, x = SField a n sb /\ field_wire fd = response_key a n.
+  Proof.
+    unfold members_need. intros Hm.
+    match type of Hm with (if ?c then _ else _) = _ => destruct c eqn:Ec; [|discriminate] end.
+    apply andb_true_iff in Ec. destruct Ec as [_ Hlen]. apply Nat.eqb_eq in Hlen. split; [exact Hlen|].
+    intros fd x Hx. destruct (map_opt_in _ _ _ _ Hm Hx) as [nd [Hpn _]]. cbn [fst snd] in Hpn.
+    unfold pair_need in Hpn. destruct x as [a n sb| |]; try discriminate.
+    destruct (String.eqb_spec (field_wire fd) (response_key a n)) as [E|]; [|discriminate].
+    exists a, n, sb. split; [reflexivity|exact E].
+  Qed.
+
+  (* the struct of a variant accepts what the enum hands to it *)
+  Lemma variant_struct_accepts rec : Accepts rec ->
+    forall rt sels sub sv nd F2 fj m content,
+    forallb (shape_ok s) sels = true -> NoDup (map fst (mixed_entries s rt sels)) ->
+    find_kind_sdl s rt = Some KObject ->
+    In (SInline (Some rt) sub) sels -> rec sv rt sub = Some nd -> nd <= F2 ->
+    (forall entry, In entry (mixed_entries s rt sels) -> field_ok s (cobj s frags fj) rt m entry = true) ->
+    NoDup (map fst content) ->
+    (forall e, In e content -> In (fst e) (map (fun x => fst (sel_entry x)) sub)) ->
+    (forall y, In y sub -> obj_get (fst (sel_entry y)) content = obj_get (fst (sel_entry y)) m) ->
+    is_some (deser henv F2 env (RNamed sv) (JObj content)) = true.
+  Proof.
+    intros Hrec rt sels sub sv nd F2 fj m content Hshape Hnd Hk Hin Hr HF Hall Hc Hkeys Hg.
+    assert (Hent : entries_of rt (SInline (Some rt) sub) = map sel_entry sub).
+    { cbn [entries_of]. rewrite (applies_object rt rt Hk), String.eqb_refl. reflexivity. }
+    rewrite forallb_forall in Hshape. pose proof (Hshape _ Hin) as Hsh. cbn [shape_ok] in Hsh.
+    apply andb_true_iff in Hsh. destruct Hsh as [Hsh _]. apply andb_true_iff in Hsh. destruct Hsh as [Hfld _].
+    apply (Hrec sv rt sub nd Hr F2 HF (S fj) content rt).
+    - unfold possible. rewrite Hk. left. reflexivity.
+    - apply (content_conforms rt sub m content fj Hfld); try assumption.
+      + rewrite mixed_is_flat_map in Hnd. pose proof (flat_map_seg_nodup (entries_of rt) sels _ Hnd Hin) as H0.
+        rewrite Hent, map_map in H0. exact H0.
+      + intros y Hy. apply Hall. rewrite mixed_is_flat_map. apply in_flat_map.
+        exists (SInline (Some rt) sub). split; [exact Hin|]. rewrite Hent. apply in_map. exact Hy.
+  Qed.
+
+  Lemma abs_sound rec : Accepts rec ->
+    forall name t sels B, abs_need s henv env rec name t sels = Some B ->
+    forall F, B <= F -> forall Fj m rt, In rt (possible s t) -> cobj s frags Fj rt sels m = true ->
+    is_some (deser henv F env (RNamed name) (JObj m)) = true.
+  Proof.
+    intros Hrec name t sels B H F HF Fj m rt Hrt Hc.
+    unfold abs_need in H.
+    set (own := filter (fun x => is_field x && not_typename x) sels) in *.
+    match type of H with (if negb ?c then _ else _) = _ => destruct c eqn:EC; [|discriminate] end. cbn [negb] in H.
+    apply andb_true_iff in EC; destruct EC as [EC Hposs].
+    apply andb_true_iff in EC; destruct EC as [EC Hprim]. apply negb_true_iff in Hprim.
+    apply andb_true_iff in EC; destruct EC as [EC Hinl]. apply nodup_str_NoDup in Hinl.
+    apply andb_true_iff in EC; destruct EC as [Hshape Htn].
+    rewrite forallb_forall in Hposs. specialize (Hposs rt Hrt).
+    apply andb_true_iff in Hposs; destruct Hposs as [Hposs Hownty].
+    apply andb_true_iff in Hposs; destruct Hposs as [Hnd Hrtobj]. apply nodup_str_NoDup in Hnd.
+    assert (Hrtk : find_kind_sdl s rt = Some KObject) by (destruct (find_kind_sdl s rt) as [[]|]; try discriminate; reflexivity).
+    clear Hrtobj.
+    (* the payload *)
+    destruct Fj as [|fj]; [discriminate|]. cbn [cobj] in Hc.
+    rewrite (collected_mixed rt sels Hshape Hnd) in Hc.
+    apply andb_true_iff in Hc. destruct Hc as [Hc Hall]. apply andb_true_iff in Hc. destruct Hc as [Hmnd Hkeys].
+    apply nodup_str_NoDup in Hmnd. rewrite forallb_forall in Hall. rewrite forallb_forall in Hkeys.
+    (* __typename *)
+    apply existsb_exists in Htn. destruct Htn as [xt [Hxt Hxt']]. destruct xt as [[|] nt subt| |]; try discriminate.
+    apply String.eqb_eq in Hxt'. subst nt.
+    assert (Htin : In ("__typename", ("__typename", subt)) (mixed_entries s rt sels)).
+    { rewrite mixed_is_flat_map. apply in_flat_map. exists (SField None "__typename" subt). split; [exact Hxt|left; reflexivity]. }
+    pose proof (Hall _ Htin) as Htok. unfold field_ok in Htok.
+    destruct (obj_get "__typename" m) as [vt|] eqn:Egt; [|discriminate]. cbn in Htok. apply json_eqb_str in Htok. subst vt.
+    pose proof Hshape as Hshape'. rewrite forallb_forall in Hshape'.
+    (* where a key of the payload can come from *)
+    assert (Hcls : forall k, In k (map fst (mixed_entries s rt sels)) ->
+              (exists a n sb, In (SField a n sb) sels /\ k = response_key a n) \/
+              (exists sb y, In (SInline (Some rt) sb) sels /\ In y sb /\ k = fst (sel_entry y))).
+    { intros k Hk. apply in_map_iff in Hk. destruct Hk as [e [<- He]]. rewrite mixed_is_flat_map in He.
+      apply in_flat_map in He. destruct He as [x [Hx Hex]].
+      destruct x as [a n sb|[v|] sb|]; cbn [entries_of] in Hex; try contradiction.
+      - destruct Hex as [<-|[]]. left. exists a, n, sb. split; [exact Hx|reflexivity].
+      - pose proof (Hshape' _ Hx) as Hsh. cbn [shape_ok] in Hsh. apply andb_true_iff in Hsh. destruct Hsh as [_ Hv].
+        assert (Hvk : find_kind_sdl s v = Some KObject) by (destruct (find_kind_sdl s v) as [[]|]; try discriminate; reflexivity).
+        rewrite (applies_object rt v Hvk) in Hex. destruct (String.eqb_spec rt v) as [<-|]; [|contradiction].
+        apply in_map_iff in Hex. destruct Hex as [y [<- Hy]]. right. exists sb, y. repeat split; assumption. }
+    (* keys of an inline fragment on rt are not __typename and differ from the keys of fields *)
+    assert (Hsubkeys : forall sb y, In (SInline (Some rt) sb) sels -> In y sb ->
+              forall a n sb', In (SField a n sb') sels -> fst (sel_entry y) <> response_key a n).
+    { intros sb y Hsb Hy a n sb' Hf. rewrite mixed_is_flat_map in Hnd.
+      apply (flat_map_keys_disjoint (entries_of rt) sels (SInline (Some rt) sb) (SField a n sb') (sel_entry y) (sel_entry (SField a n sb')) Hnd Hsb Hf).
+      - discriminate.
+      - cbn [entries_of]. rewrite (applies_object rt rt Hrtk), String.eqb_refl. apply in_map. exact Hy.
+      - left. reflexivity. }
+    (* the variant for rt *)
+    assert (Hvar : forall variants vn, variants_need s rec t sels variants = Some vn ->
+              exists var nd, find (fun v => String.eqb (variant_wire v) rt) variants = Some var /\ In nd vn /\
+                match v_payload var, assoc rt (inlines sels) with
+                | None, None => True
+                | Some (RNamed sv), Some sub => rec sv rt sub = Some nd
+                | _, _ => False
+                end).
+    { intros variants vn Hv. unfold variants_need in Hv.
+      destruct (map_opt_in _ _ _ _ Hv Hrt) as [nd [Hnd1 Hnd2]].
+      destruct (find (fun v => String.eqb (variant_wire v) rt) variants) as [var|]; [|discriminate].
+      exists var, nd. split; [reflexivity|]. split; [exact Hnd2|].
+      destruct (v_payload var) as [[sv| | | |]|]; destruct (assoc rt (inlines sels)); try discriminate; try exact I.
+      exact Hnd1. }
+    (* what a tagged enum does with an object whose __typename is rt, given how the remaining keys
+       relate to the payload *)
+    assert (Henum : forall variants vn F2 (m2 : list (string * json)),
+              variants_need s rec t sels variants = Some vn -> list_max vn <= F2 ->
+              NoDup (map fst m2) -> obj_get "__typename" m2 = Some (JStr rt) ->
+              (forall e, In e m2 -> fst e <> "__typename" ->
+                 exists sb y, In (SInline (Some rt) sb) sels /\ In y sb /\ fst e = fst (sel_entry y)) ->
+              (forall sb y, In (SInline (Some rt) sb) sels -> In y sb ->
+                 obj_get (fst (sel_entry y)) m2 = obj_get (fst (sel_entry y)) m) ->
+              is_some (deser_tagged (deser henv F2 env) "__typename" variants m2) = true).
+    { intros variants vn F2 m2 Hv HF2 Hnd2 Hg2 Hk2 Ho2.
+      destruct (Hvar variants vn Hv) as [var [nd [Hfind [Hndin Hpay]]]].
+      apply (tagged_accepts _ "__typename" variants m2 rt var Hnd2 Hg2 Hfind).
+      destruct (v_payload var) as [[sv| | | |]|]; try exact I; try contradiction.
+      destruct (assoc rt (inlines sels)) as [sub|] eqn:Eas; [|contradiction].
+      pose proof (assoc_inlines rt sub sels Eas) as Hsubin.
+      apply (variant_struct_accepts rec Hrec rt sels sub sv nd F2 fj m _ Hshape Hnd Hrtk Hsubin Hpay).
+      - pose proof (in_list_max _ _ Hndin). lia.
+      - exact Hall.
+      - apply nodup_keys_filter. exact Hnd2.
+      - intros e He. apply filter_In in He. destruct He as [He Hne]. apply negb_true_iff in Hne.
+        apply String.eqb_neq in Hne. destruct (Hk2 e He Hne) as [sb [y [Hsb [Hy Hey]]]].
+        rewrite (inlines_unique rt sub sb sels Hinl Hsubin Hsb). rewrite Hey.
+        apply in_map_iff. exists y. split; [reflexivity|exact Hy].
+      - intros y Hy. rewrite obj_get_filter; [exact (Ho2 sub y Hsubin Hy)|].
+        intros v. cbn [fst]. apply negb_true_iff. apply String.eqb_neq.
+        exact (Hsubkeys sub y Hsubin Hy None "__typename" subt Hxt). }
+    destruct own as [|o1 orest] eqn:Eown.
+    - (* no fields of its own: the enum is the type *)
+      destruct (find_item name env) as [[| |nm d c tag variants| | | | | |]|] eqn:Ef; try discriminate.
+      destruct (String.eqb_spec tag "__typename") as [->|]; [|discriminate]. cbn [negb] in H.
+      destruct (variants_need s rec t sels variants) as [vn|] eqn:Ev; [|discriminate].
+      inversion H; subst B. clear H. destruct F as [|F]; [lia|].
+      cbn [deser]. rewrite (prim_deser_none name (JObj m) Hprim), Ef.
+      apply (Henum variants vn F m Ev); try assumption; [lia| |].
+      + intros e He Hne. specialize (Hkeys e He). apply mem_str_In in Hkeys.
+        destruct (Hcls _ Hkeys) as [[a [n [sb [Hf Hk]]]]|[sb [y [Hsb [Hy Hk]]]]].
+        * exfalso. (* a field: only __typename is left, since own = [] *)
+          assert (Hno : is_field (SField a n sb) && not_typename (SField a n sb) = false).
+          { destruct (is_field (SField a n sb) && not_typename (SField a n sb)) eqn:E; [|reflexivity].
+            assert (In (SField a n sb) own) by (unfold own; apply filter_In; split; assumption).
+            rewrite Eown in H. destruct H. }
+          cbn [is_field andb] in Hno. unfold not_typename in Hno. cbn [sel_entry fst snd] in Hno.
+          apply negb_false_iff in Hno. apply String.eqb_eq in Hno. subst n.
+          pose proof (Hshape' _ Hf) as Hsh. cbn [shape_ok] in Hsh. cbn in Hsh. destruct a; [discriminate|].
+          apply Hne. rewrite Hk. reflexivity.
+        * exists sb, y. repeat split; assumption.
+      + intros; reflexivity.
+    - (* fields of its own: a struct whose last member is the flattened enum *)
+      destruct (find_item name env) as [[nm d c fields| | | | | | | |]|] eqn:Ef; try discriminate.
+      destruct (rev fields) as [|onf rplain] eqn:Erev; [discriminate|].
+      destruct (strip_box (f_ty onf)) as [en| | | |] eqn:Een; try discriminate.
+      destruct (find_item en env) as [[| |nm2 d2 c2 tag variants| | | | | |]|] eqn:Efe; try discriminate.
+      match type of H with (if negb ?c then _ else _) = _ => destruct c eqn:EC2; [|discriminate] end. cbn [negb] in H.
+      apply andb_true_iff in EC2; destruct EC2 as [EC2 Hprim2]. apply negb_true_iff in Hprim2.
+      apply andb_true_iff in EC2; destruct EC2 as [Htag Hflat]. apply String.eqb_eq in Htag. subst tag.
+      destruct (members_need s henv env rec t (rev rplain) (o1 :: orest)) as [needs|] eqn:Em; [|discriminate].
+      destruct (variants_need s rec t sels variants) as [vn|] eqn:Ev; [|discriminate].
+      inversion H; subst B. clear H.
+      assert (Hfields : fields = rev rplain ++ [onf]).
+      { rewrite <- (rev_involutive fields), Erev. reflexivity. }
+      destruct F as [|[|F]]; try lia.
+      assert (Hmx : list_max needs <= S F /\ list_max vn <= F).
+      { rewrite list_max_app in HF. lia. }
+      destruct Hmx as [Hmx1 Hmx2].
+      rewrite <- Eown in Em. rewrite <- Eown in Hownty.
+      assert (Hownin : forall x, In x own -> exists a n sub, x = SField a n sub /\ String.eqb n "__typename" = false /\
+                 option_map fd_type (field_def s rt n) = option_map fd_type (field_def s t n) /\
+                 field_ok s (cobj s frags fj) rt m (sel_entry x) = true /\ In x sels).
+      { intros x Hx. pose proof Hx as Hx0. unfold own in Hx. apply filter_In in Hx. destruct Hx as [Hxs Hx].
+        apply andb_true_iff in Hx. destruct Hx as [Hxf Hxn]. destruct x as [a n sub| |]; try discriminate.
+        exists a, n, sub. split; [reflexivity|]. unfold not_typename in Hxn. cbn [sel_entry fst snd] in Hxn.
+        apply negb_true_iff in Hxn. split; [exact Hxn|]. split; [|split; [|exact Hxs]].
+        - rewrite forallb_forall in Hownty. specialize (Hownty _ Hx0). cbn in Hownty. exact (opt_gtype_eq _ _ Hownty).
+        - apply Hall. rewrite mixed_is_flat_map. apply in_flat_map. exists (SField a n sub). split; [exact Hxs|left; reflexivity]. }
+      destruct (members_accept rec Hrec t rt (rev rplain) own needs fj (S F) m Em Hmx1) as [Hplain [Hw [Hi Hmem]]].
+      { intros x Hx. destruct (Hownin x Hx) as [a [n [sub [E [H1 [H2 [H3 _]]]]]]]. exists a, n, sub. repeat split; assumption. }
+      destruct (members_wires rec t (rev rplain) own needs Em) as [Hlen Hwires].
+      (* the wire names of the plain members are exactly the response keys of the own fields *)
+      assert (Hwire_own : forall g, In g (rev rplain) -> exists a n sb, In (SField a n sb) sels /\
+                  String.eqb n "__typename" = false /\ field_wire g = response_key a n).
+      { intros g Hg. destruct (in_combine_exists (rev rplain) own g Hlen Hg) as [x Hx].
+        destruct (Hwires g x Hx) as [a [n [sb [-> Hwk]]]].
+        destruct (Hownin _ (in_combine_r _ _ _ _ Hx)) as [a' [n' [sb' [E [Hn' [_ [_ Hxs]]]]]]]. inversion E; subst a' n' sb'.
+        exists a, n, sb. repeat split; assumption. }
+      assert (Hown_wire : forall a n sb, In (SField a n sb) sels -> String.eqb n "__typename" = false ->
+                  find_field (response_key a n) (rev rplain) <> None).
+      { intros a n sb Hf Hn.
+        assert (Hxo : In (SField a n sb) own).
+        { unfold own. apply filter_In. split; [exact Hf|]. cbn [is_field andb]. unfold not_typename. cbn [sel_entry fst snd]. rewrite Hn. reflexivity. }
+        destruct (in_combine_exists_r (rev rplain) own _ Hlen Hxo) as [g Hg].
+        destruct (Hwires g _ Hg) as [a' [n' [sb' [E Hwk]]]]. inversion E; subst a' n' sb'.
+        rewrite (find_field_in _ _ g Hw (in_combine_l _ _ _ _ Hg) Hwk). discriminate. }
+      cbn [deser]. rewrite (prim_deser_none name (JObj m) Hprim), Ef. rewrite Hfields.
+      apply (struct_on_accepts (deser henv (S F) env) (deser henv (S F) henv) env (rev rplain) onf en Hplain Hw Hi Hflat Een); try assumption.
+      { exists nm2, d2, c2, "__typename", variants. exact Efe. }
+      cbn [deser]. rewrite (prim_deser_none en _ Hprim2), Efe.
+      apply (Henum variants vn F _ Ev Hmx2).
+      + apply nodup_keys_filter. exact Hmnd.
+      + rewrite obj_get_filter; [exact Egt|]. intros v. unfold not_own. cbn [fst].
+        rewrite find_field_absent; [reflexivity|]. intros g Hg Hgw.
+        destruct (Hwire_own g Hg) as [a [n [sb [Hf [Hn Hwk]]]]].
+        (* the own field and the __typename field would share a key *)
+        rewrite mixed_is_flat_map in Hnd.
+        apply (flat_map_keys_disjoint (entries_of rt) sels (SField a n sb) (SField None "__typename" subt)
+                 (sel_entry (SField a n sb)) (sel_entry (SField None "__typename" subt)) Hnd Hf Hxt).
+        * intros E. inversion E; subst. discriminate.
+        * left. reflexivity.
+        * left. reflexivity.
+        * cbn [sel_entry fst]. rewrite <- Hwk, Hgw. reflexivity.
+      + intros e He Hne. apply filter_In in He. destruct He as [He Hno].
+        specialize (Hkeys e He). apply mem_str_In in Hkeys.
+        destruct (Hcls _ Hkeys) as [[a [n [sb [Hf Hk]]]]|[sb [y [Hsb [Hy Hk]]]]].
+        * exfalso. destruct (String.eqb n "__typename") eqn:En.
+          -- apply String.eqb_eq in En. subst n.
+             pose proof (Hshape' _ Hf) as Hsh. cbn [shape_ok] in Hsh. cbn in Hsh. destruct a; [discriminate|].
+             apply Hne. rewrite Hk. reflexivity.
+          -- unfold not_own in Hno. rewrite Hk in Hno.
+             destruct (find_field (response_key a n) (rev rplain)) eqn:Eff; [discriminate|].
+             exact (Hown_wire a n sb Hf En Eff).
+        * exists sb, y. repeat split; assumption.
+      + intros sb y Hsb Hy. rewrite obj_get_filter; [reflexivity|].
+        intros v. unfold not_own. cbn [fst]. rewrite find_field_absent; [reflexivity|].
+        intros g Hg Hgw. destruct (Hwire_own g Hg) as [a [n [sb' [Hf [Hn Hwk]]]]].
+        apply (Hsubkeys sb y Hsb Hy a n sb' Hf). rewrite <- Hwk, Hgw. reflexivity.
+  Qed.
+
+  Theorem sel_accepts : forall fuel, Accepts (sel_need s henv env fuel).
+  Proof.
+    induction fuel as [|f IH]; intros name t sels B H; [discriminate|].
+    cbn [sel_need] in H. destruct (find_kind_sdl s t) as [[| | | | |]|] eqn:Ek; try discriminate.
+    - exact (obj_sound _ IH name t sels B Ek H).
+    - exact (abs_sound _ IH name t sels B H).
+    - exact (abs_sound _ IH name t sels B H).
+  Qed.
 End Soundness.
+
 
 (* ---------- for a whole operation: if the checker certifies the root struct, every conforming
    `data` payload of every size is accepted *)
@@ -492,7 +1144,10 @@ Definition certify (s : aschema) (henv env : list ritem) (doc : list qdef) (op :
   match find_op doc op with
   | Some (k, _, sels) =>
       match root_type s k with
-      | Some root => plain_need s henv env (S (fold_right (fun y a => sel_size y + a) 0 sels)) "ResponseData" root sels
+      | Some root =>
+          if mem_str root (possible s root)
+          then sel_need s henv env (S (fold_right (fun y a => sel_size y + a) 0 sels)) "ResponseData" root sels
+          else None
       | None => None
       end
   | None => None
@@ -506,6 +1161,7 @@ Proof.
   unfold certify, conforms. intros H F data HF Hc.
   destruct (find_op doc op) as [[[k vars] sels]|]; [|discriminate].
   destruct (root_type s k) as [root|]; [|discriminate].
+  destruct (mem_str root (possible s root)) eqn:Er; [|discriminate]. apply mem_str_In in Er.
   destruct data as [| | | | | |m]; try discriminate.
-  exact (plain_accepts s (frag_defs doc) henv env _ "ResponseData" root sels B H F HF _ m Hc).
+  exact (sel_accepts s (frag_defs doc) henv env _ "ResponseData" root sels B H F HF _ m root Er Hc).
 Qed.
